@@ -11,6 +11,10 @@
 (*   "P2"  the block constructor: reserve slot under m; add_task; ...;     *)
 (*         cv2.wait(m, parts_done = #parts); stop; join. Worker task:      *)
 (*         build; lock m; store slot; parts_done++; unlock m; notify cv2   *)
+(*   "P5"  P2 with one dependency between tasks: the body of task 1 waits *)
+(*         until the body of task 2 has been entered (NT >= 2, NW >= 2):   *)
+(*         a queued task must be picked up while another worker is busy -  *)
+(*         the work-conservation side of "no wake-up is lost".             *)
 (*   "P3"  the pinned test: tasks count under m, the task that completes   *)
 (*         the count calls stop_all_workers itself (holding m); the client *)
 (*         only adds and joins.                                            *)
@@ -26,13 +30,14 @@ EXTENDS Naturals, Sequences, FiniteSets, TLC
 
 CONSTANTS NW,       \* number of workers  (>= 1)
           NT,       \* number of tasks    (>= 0)
-          Client,   \* "P1" | "P2" | "P3"
+          Client,   \* "P1" | "P2" | "P3" | "P5"
           Locked    \* BOOLEAN
 
 W    == 1..NW
 PID  == NW + 1
 Thr  == 1..(NW + 1)
 Task == 1..NT
+IsP2 == Client \in {"P2", "P5"}
 
 VARIABLES
   q,        \* the queue: sequence of task ids
@@ -147,20 +152,22 @@ ExitN(w) == /\ pc[w] = "exitn" /\ waiting' = {}
 -----------------------------------------------------------------------------
 (* Task bodies of the client patterns P2 / P3 (executed by the worker)       *)
 
+\* P5: task 1 first waits (on a condition variable of its own) until task 2 has been entered
 TLockM(w) == /\ pc[w] = "t_lockm" /\ m = 0 /\ m' = w
+             /\ (Client = "P5" /\ tmp[w] = 1 /\ NT >= 2) => started[2] > 0
              /\ Go(w, "t_crit")
              /\ UNCHANGED <<q, stopped, sh, waiting, tmp, si, started, ended, waiting2, done, slots>>
 \* P2: parts[idx] = sd; parts_done++      P3: tasks_done++; if (tasks_done == N) stop_all_workers()
 TCrit(w) == /\ pc[w] = "t_crit" /\ m = w
             /\ done' = done + 1
-            /\ slots' = IF Client = "P2" THEN [slots EXCEPT ![tmp[w]] = tmp[w]] ELSE slots
+            /\ slots' = IF IsP2 THEN [slots EXCEPT ![tmp[w]] = tmp[w]] ELSE slots
             /\ IF Client = "P3" /\ done + 1 = NT
                  THEN /\ si' = [si EXCEPT ![w] = 1]
                       /\ Go(w, IF Locked THEN "stopL" ELSE "stop")
                  ELSE /\ si' = si /\ Go(w, "t_unlockm")
             /\ UNCHANGED <<q, stopped, sh, waiting, tmp, started, ended, m, waiting2>>
 TUnlockM(w) == /\ pc[w] = "t_unlockm" /\ m = w /\ m' = 0
-               /\ Go(w, IF Client = "P2" THEN "t_notify2" ELSE "t_end")
+               /\ Go(w, IF IsP2 THEN "t_notify2" ELSE "t_end")
                /\ UNCHANGED <<q, stopped, sh, waiting, tmp, si, started, ended, waiting2, done, slots>>
 TNotify2(w) == /\ pc[w] = "t_notify2" /\ waiting2' = FALSE
                /\ Go(w, "t_end")
@@ -196,9 +203,9 @@ StopN(t) == /\ pc[t] = "stopN" /\ waiting' = {}
 \* loop head of the producer: next task or finished adding
 CNext == /\ pc[PID] = "c_next"
          /\ IF si[PID] <= NT
-              THEN Go(PID, IF Client = "P2" THEN "c_lockm" ELSE IF Locked THEN "addL" ELSE "add")
+              THEN Go(PID, IF IsP2 THEN "c_lockm" ELSE IF Locked THEN "addL" ELSE "add")
               ELSE Go(PID, CASE Client = "P1" -> IF Locked THEN "stopL" ELSE "stop"
-                             [] Client = "P2" -> "c_lockm2"
+                             [] IsP2 -> "c_lockm2"
                              [] Client = "P3" -> "join")
          /\ si' = [si EXCEPT ![PID] = IF si[PID] <= NT THEN @ ELSE 1]
          /\ UNCHANGED <<q, stopped, sh, waiting, tmp, started, ended, m, waiting2, done, slots>>
@@ -274,7 +281,7 @@ LockDiscipline    == /\ \A w \in W : pc[w] \in {"pred1","pred2","wait","chk1","c
                      /\ \A t \in Thr : pc[t] \in {"stopU", "addU"} => sh = t
 \* P2: slot i is only ever filled with the result of block i; at return all slots are filled
 SlotOrder         == \A t \in Task : slots[t] \in {0, t}
-Complete          == (Client = "P2" /\ pc[PID] \in {"stopL", "stop", "stopU", "stopN", "join", "fin"})
+Complete          == (IsP2 /\ pc[PID] \in {"stopL", "stop", "stopU", "stopN", "join", "fin"})
                         => (done = NT /\ \A t \in Task : slots[t] = t)
 \* no deadlock other than termination is checked by TLC's deadlock check (Finished stutters)
 
